@@ -73,6 +73,50 @@ def sweep(ctx, seeds, positions_vals):
                  sample={"orig": hx(s), "mutated": hx(m), "index": i, "impl": impl[:40]})
 
 
+def self_similar(seeds):
+    """VALID frames that contain, as a prefix, another frame that would be valid if the length byte were smaller:
+    for a shorter length L' the byte at index L' is the two's-complement checksum of bytes 1..L'-1 computed WITH L' as
+    the length byte, and (for frames with a body check) the byte before it is a valid CRC-8 / additive check of the
+    shortened body.  Corrupting just the length byte of such a frame must still be detected by the checksum over the
+    WHOLE frame.  (The same idea as embedded start markers in the C04 streams: a container whose payload embeds a
+    well-formed smaller container.)"""
+    out = []
+    for s in seeds:
+        n = len(s)
+        style = respgen.style_of(s)
+        for lp in range(14, n - 3):
+            f = bytearray(s)
+            if f[10] not in (0xB0, 0xB1):
+                f[lp - 1] = respgen.inner(bytes(f[10:lp - 1]), style if style != "none" else "crc")
+            f[lp] = (~(lp + sum(f[2:lp])) + 1) & 0xFF
+            g = respgen.make_frame(bytes(f[10:-2]), frame_type=f[9], style=style if style != "none" else "crc",
+                                   proto=f[8], hdr=bytes(f[3:8]))
+            if acgen.impl_construct(g)[0].startswith("err"):
+                continue          # the crafted bytes made the full frame undecodable: not a valid response
+            out.append((g, lp))
+    return out
+
+
+def length_byte_sweep(ctx, crafted):
+    """every substitute of the length byte (and of the crafted positions) of the self-similar frames, without fix-up"""
+    for g, lp in crafted:
+        for v in range(256):
+            if v == g[1]:
+                continue
+            m = bytearray(g)
+            m[1] = v
+            m = bytes(m)
+            impl, _ = acgen.impl_construct(m)
+            if impl != "err:invalid_frame":
+                ctx.violate("length_byte", {"orig": hx(g), "frame": hx(m), "index": 1, "embedded_length": lp}, {"impl": impl[:80]},
+                            "err:invalid_frame", "corrupted length byte was not detected by the frame checksum")
+            if ctx.driver and v in (lp, lp - 1, lp + 1):
+                rep = ctx.driver.ask(f"construct frame={hx(m)}")
+                if acgen.canon_model_response(rep) != impl:
+                    ctx.disagree("length_byte", {"frame": hx(m)}, impl, rep)
+            ctx.case("length_byte", key=hx(m), sample={"orig": hx(g), "mutated": hx(m), "impl": impl[:40]} if v == lp else None)
+
+
 def refresh_only_corrupted(ctx, rng, seeds, n):
     """a refresh (and the other operations) fed only rejected frames leaves to_dict() unchanged,
     offline, unsupported"""
@@ -129,7 +173,11 @@ def run(ctx):
         sweep(ctx, rest, lambda s: ((i, (s[i] + d) & 0xFF) for i in range(1, len(s))
                                     for d in sorted(rng.sample(range(1, 256), 16))))
         refresh_only_corrupted(ctx, rng, seeds, 150)
+        crafted = self_similar(seeds)
+        ctx.notes.append(f"{len(crafted)} self-similar frames (valid frames embedding a valid shorter frame)")
+        length_byte_sweep(ctx, crafted[::max(1, len(crafted) // 60)])
     else:
+        length_byte_sweep(ctx, self_similar(seeds))
         sweep(ctx, seeds, lambda s: ((i, v) for i in range(1, len(s)) for v in range(256) if v != s[i]))
         refresh_only_corrupted(ctx, rng, seeds, 3000)
     ctx.coverage_exhaustive = True
